@@ -95,7 +95,7 @@ func checkC06(r *core.Run) {
 	c06UndoRecord(r, p)
 	c06UndoApply(r, p)
 	c06Order(r, p)
-	c06FlagsAfterHeight(r, p)
+	c06FlagsAfterHeight(r, p, "R-C06-order")
 }
 
 // c06FlagsAfterHeight: a block re-read from the store (NewBlock in the same function) has height 0 until
@@ -103,8 +103,7 @@ func checkC06(r *core.Run) {
 // block is given its flags - the reorganisation path and the two re-apply paths of the client - the
 // assignment of the tree node's height must come first, otherwise every block connected through a
 // reorganisation is verified with the rules of height 0.
-func c06FlagsAfterHeight(r *core.Run, p *core.Program) {
-	const rule = "R-C06-order"
+func c06FlagsAfterHeight(r *core.Run, p *core.Program, rule string) {
 	n := 0
 	for _, f := range p.ModuleFuncs() {
 		for _, c := range an.CallsTo(f, false, "(*lib/chain.Chain).ApplyBlockFlags") {
